@@ -231,6 +231,9 @@ def main():
     run = Run("C09", "model_checking", "CH+LX")
     t = tier()
     split_lemmas(run)
+    from checks import lxprops
+
+    lxprops.sample_validation(run, "C09")   # whole lines through parse_line: operands == reference normal form
     hs = harnesses(t)
     res = ch.run_harnesses(run, hs)
     conf = run.counts.get("ch:confirmed", 0)
@@ -254,6 +257,10 @@ def main():
 
 
 def replay(rec):
+    if rec.get("kind") == "lx":
+        from checks import lxprops
+
+        return lxprops.replay(rec)
     if rec.get("kind") == "split":
         from jasm.stringify_asm.implementations.gnu_objdump.asm_manual_parser_w_regex import LineParser
 
